@@ -32,7 +32,7 @@ def make_model(kind, seed):
     fp = FP()
     li = families.op_leaky(fp)
     li.vars['u'] = ('input', F(0))
-    o1 = families.op_two_inputs(fp, x='v') if (kind == 'xcoupling' and seed % 2 == 0) else families.op_two_inputs(fp)
+    o1 = families.op_two_inputs(fp, x='v') if ((kind == 'xcoupling' and seed % 2 == 0) or kind == 'dyncoupling') else families.op_two_inputs(fp)
     o1.vars['u'] = ('input', F(0))
     o1.vars['w'] = ('input', F(0))
     # coupling operators: the last program of each batch keeps a constant inside the coupling operator (rejected
@@ -47,14 +47,24 @@ def make_model(kind, seed):
                      {'z': ('alg', F(0)), 'pre': ('input', F(0)), 'post': ('input', F(0))}, output='z')
     cpl1 = OpSpec('cp1', [('z', 'alg', X.add(X.mul(C(3), V('pre')), X.mul(V('pre'), V('pre'))))],
                   {'z': ('alg', F(0)), 'pre': ('input', F(0))}, output='z')
-    ops = {'li': li, 'o1': o1, 'cpl': cpl, 'cp1': cpl1}
-    etp = {'ce': EdgeTplSpec('ce', ['cpl']), 'c1': EdgeTplSpec('c1', ['cp1'])}
+    # dynamic coupling operator: one state variable per (target, source) pair
+    if seed % 2:
+        dyn = OpSpec('dyn', [('s', 'de', X.sub(X.call('tanh', X.sub(V('pre'), V('post'))), V('s')))],
+                     {'s': ('state', F(0)), 'pre': ('input', F(0)), 'post': ('input', F(0))}, output='s')
+    else:
+        dyn = OpSpec('dyn', [('s', 'de', X.div(X.sub(X.mul(V('pre'), V('post')), V('s')), V('te')))],
+                     {'s': ('state', F(0)), 'pre': ('input', F(0)), 'post': ('input', F(0)), 'te': ('const', fp())},
+                     output='s')
+    ops = {'li': li, 'o1': o1, 'cpl': cpl, 'cp1': cpl1, 'dyn': dyn}
+    etp = {'ce': EdgeTplSpec('ce', ['cpl']), 'c1': EdgeTplSpec('c1', ['cp1']), 'de': EdgeTplSpec('de', ['dyn'])}
     # coupling/delay/spread kinds mostly with >= 2 units (size-1 populations hit the recorded n=1 finding)
-    lo = 1 if (kind in ('matrix', 'scalar') or (seed % 5 == 4 and kind not in ('delay2', 'spread2'))) else 2
+    lo = 1 if (kind in ('matrix', 'scalar') or (seed % 5 == 4 and kind not in ('delay2', 'spread2', 'dyncoupling'))) else 2
     na = rnd.randint(lo, 3)
     nb = rnd.randint(lo, 3)
     if kind == 'xcoupling' and seed % 4 < 2:
         nb = na          # equally sized populations: a source/target mix-up stays shape-consistent
+    if kind == 'dyncoupling':
+        na, nb = 2 + seed % 2, 2 + (seed // 2) % 2
 
     def pvals(n):
         return [fp() for _ in range(n)]
@@ -92,6 +102,10 @@ def make_model(kind, seed):
         post = 'b/o1/v' if seed % 2 == 0 else 'b/o1/x'
         conns.append(Conn('a/li/x', 'b/o1/u', Wm(nb, na), edge='ce', var_map={'pre': 'source', 'post': post}))
         conns.append(Conn('b/o1/' + post.rsplit('/', 1)[1], 'a/li/u', Wm(na, nb)))
+    elif kind == 'dyncoupling':
+        post = 'b/o1/v'
+        conns.append(Conn('a/li/x', 'b/o1/u', Wm(nb, na), edge='de', var_map={'pre': 'source', 'post': post}))
+        conns.append(Conn('b/o1/v', 'a/li/u', Wm(na, nb)))
     elif kind == 'delay':
         # multiples of the step and off-grid values (2.625 and 2.6 steps round to 3, 2.375 to 2)
         conns.append(Conn('a/li/x', 'b/o1/u', Wm(nb, na), delay=DT * rnd.choice([2, 3, F(21, 8), F(13, 5), F(19, 8)])))
@@ -100,12 +114,20 @@ def make_model(kind, seed):
         # two delayed Connectivity objects read the SAME source variable with different delays
         d1, d2 = rnd.choice([(2, 3), (3, 2), (2, 4)])
         conns.append(Conn('a/li/x', 'b/o1/u', Wm(nb, na), delay=DT * d1))
-        conns.append(Conn('a/li/x', 'b/o1/w', Wm(nb, na), delay=DT * d2))
-        conns.append(Conn('b/o1/x', 'a/li/u', Wm(na, nb)))
+        if seed % 2:
+            conns.append(Conn('a/li/x', 'b/o1/w', Wm(nb, na), delay=DT * d2))      # same target population
+            conns.append(Conn('b/o1/x', 'a/li/u', Wm(na, nb)))
+        else:
+            conns.append(Conn('a/li/x', 'a/li/u', Wm(na, na), delay=DT * d2))      # another target population
+            conns.append(Conn('b/o1/x', 'b/o1/w', Wm(nb, nb)))
     elif kind == 'spread2':
         conns.append(Conn('a/li/x', 'b/o1/u', Wm(nb, na), delay=F(1, 2), spread=F(1, 4)))
-        conns.append(Conn('a/li/x', 'b/o1/w', Wm(nb, na), delay=F(1), spread=F(2, 3)))
-        conns.append(Conn('b/o1/x', 'a/li/u', Wm(na, nb)))
+        if seed % 2:
+            conns.append(Conn('a/li/x', 'b/o1/w', Wm(nb, na), delay=F(1), spread=F(2, 3)))
+            conns.append(Conn('b/o1/x', 'a/li/u', Wm(na, nb)))
+        else:
+            conns.append(Conn('a/li/x', 'a/li/u', Wm(na, na), delay=F(1), spread=F(2, 3)))
+            conns.append(Conn('b/o1/x', 'b/o1/w', Wm(nb, nb)))
     elif kind == 'spread':
         d, s = rnd.choice([(F(1, 2), F(1, 4)), (F(1), F(2, 3)), (F(1), F(1, 2)), (F(1, 2), F(1, 2))])
         conns.append(Conn('a/li/x', 'b/o1/u', Wm(nb, na), delay=d, spread=s))
@@ -133,6 +155,8 @@ def job_fn(job):
         plugin = tvdelay.RingBufferPlugin(DT)
     elif job['kind'] in ('spread', 'spread2'):
         plugin = tvdelay.ChainPlugin()
+    elif job['kind'] == 'dyncoupling':
+        plugin = tvdelay.EdgeStatePlugin()
     res = tvspec.validate(spec, c, tally, vectorized=True, plugin=plugin, t_sym=2)
     r = dict(status='ok', res=res, tally=tally.as_dict(), src=c.src, keys=list(c.keys),
              smap={k: str(v) for k, v in c.smap.items()}, exp_spec=spec)
@@ -211,13 +235,13 @@ def run(tier='quick', seed=0, only=None, verbose=False):
         assumptions=['reals for floats', 'dynamic (state-bearing) coupling edges are not generated yet',
                      'zero matrix entries mean no edge'])
     jobs = []
-    kinds = ['matrix', 'scalar', 'coupling', 'xcoupling', 'delay', 'spread', 'delay2', 'spread2']
+    kinds = ['matrix', 'scalar', 'coupling', 'xcoupling', 'dyncoupling', 'delay', 'spread', 'delay2', 'spread2']
     n = 4 if tier == 'quick' else 30
     for kind in kinds:
         for i in range(n):
             jobs.append(dict(key=f"pop:{kind}:{seed}:{i}|population", kind=kind, seed=seed * 100 + i, build='population',
                              vectorize=True, spec=None))
-            if i < (2 if tier == 'quick' else 10) and kind not in ('coupling', 'xcoupling'):
+            if i < (2 if tier == 'quick' else 10) and kind not in ('coupling', 'xcoupling', 'dyncoupling'):
                 for vec in (True, False):
                     jobs.append(dict(key=f"pop:{kind}:{seed}:{i}|explicit|vec={vec}", kind=kind, seed=seed * 100 + i,
                                      build='explicit', vectorize=vec, spec=None))
